@@ -458,8 +458,12 @@ HelloMap(hs) ==
 (***************************************************************************)
 (* Judgements on what the real code did (used by Flight_Trace).            *)
 (***************************************************************************)
-\* a message has the layout sk = [len, pos, val] (positions and values of its length fields and type codes)
-SkelOK(b, sk) == Len(b) = sk.len /\ \A j \in DOMAIN sk.pos : b[sk.pos[j]] = sk.val[j]
+\* a message has the layout sk = [len, pos, val, typ]: positions and values of its length fields (typ 0) and type
+\* codes (typ 1).  A GREASE code (bytes 0x?A 0x?A, drawn per connection) may stand where another GREASE code stood:
+\* that moves no boundary.
+SkelOK(b, sk) == /\ Len(b) = sk.len
+                 /\ \A j \in DOMAIN sk.pos : \/ b[sk.pos[j]] = sk.val[j]
+                                              \/ (sk.typ[j] = 1 /\ b[sk.pos[j]] % 16 = 10 /\ sk.val[j] % 16 = 10)
 \* digest of a byte string (the harness logs the same polynomial hash of what it sent)
 SX == INSTANCE SequencesExt
 Digest(b) == SX!FoldLeft(LAMBDA a, x : (a * 257 + x + 1) % 1000003, 7, b)
